@@ -128,6 +128,8 @@ def run(ctx):
     for i in range(n_float):
         one(ca.float_case(rng), "float")
 
+    for i in range(24 if thorough else 4):
+        ca.run_big(S, ca.big_params(rng, i), [("nan",), ("pair", -3)])
     ctx.coverage["oracle_only_calls"] = S.oracle_only
     ctx.coverage.update({"real_calls": S.calls, "calls_compared_in_coq": len(S.lits), "float_stream_calls": n_float,
                          "distribution": dict(sorted(S.dist.items()))})
